@@ -139,359 +139,118 @@ def strip_rule(ctx, rep):
 
 # ---------------------------------------------------------------- container-length domain
 
-def is_len_of(o, vec):
-    return o[0] == "call" and re.search(r"Vec::<T(, A)?>::len$", o[1] or "") is not None and strip_refs(o[3][0]) == vec
-
-
-def f0(o):
-    return o[1] if o[0] == "field" and o[2] == 0 else o
-
-
-def classify_amount(o, vec):
-    """put_bytes amount -> ('pad_to', K) | ('round_up', a_origin) | ('unknown', text)"""
-    x = f0(o)
-    if x[0] == "bin" and x[1] in ("SubWithOverflow", "Sub") and is_len_of(x[3], vec):
-        lhs = x[2]
-        if lhs[0] == "const":
-            return ("pad_to", lhs[1] if lhs[1] is not None else lhs[2])
-        y = lhs
-        if y[0] == "bin" and y[1] == "BitAnd":
-            s, m = f0(y[2]), y[3]
-            if s[0] == "bin" and s[1] in ("AddWithOverflow", "Add") and is_len_of(s[2], vec) and m[0] == "un" and m[1] == "Not" and f0(s[3]) == f0(m[2]):
-                return ("round_up", fmt_origin(f0(s[3])))
-    return ("unknown", fmt_origin(o)[:80])
-
-
-def classify_cond(o, vec):
-    """bool switch discriminant -> descriptor or None"""
-    if o[0] != "bin":
-        return None
-    op, l, r = o[1], o[2], o[3]
-    if op == "Gt" and r[0] == "const" and r[1] == 0:
-        a = classify_amount(l, vec)
-        if a[0] == "pad_to":
-            return ("remaining>0", a[1])
-    if op == "Ne" and is_len_of(r, vec):
-        y = l
-        if y[0] == "bin" and y[1] == "BitAnd":
-            return ("needs_round",)
-    if op == "Gt" and is_len_of(l, vec) and r[0] == "const":
-        return ("len>K", r[1] if r[1] is not None else r[2])
-    if op == "Gt" and r[0] == "const" and r[1] == 1 and "arg" in fmt_origin(l):
-        return ("align>1",)
-    return None
-
-
-def vec_paths(b, vec_local):
-    """abstract runs of the tracked Vec<u8> local over all paths: list of (branch tag, events, final state)"""
-    vec = ("phi", vec_local) if len([d for d in b.defs().get(vec_local, [])]) > 1 else None
-
-    def same_vec(o):
-        x = strip_refs(o)
-        if x == ("phi", vec_local):
-            return True
-        if x[0] == "call":
-            d = b.single_def(vec_local)
-            return d is not None and d[0] == "call" and d[1] == x[4]
-        return False
-
-    def vec_id():
-        # the vector is identified by the call that made it, also when it was moved through a helper's parameter and back
-        o = b.origin({"copy": {"l": vec_local, "p": []}})
-        if o[0] == "call":
-            return o
-        return ("phi", vec_local)
-    V = vec_id()
-
-    def classify(kind, bb, idx, node):
-        if kind != "term" or node["k"] != "call":
-            return None
-        d = callee(node)[0] or ""
-        if not node["args"]:
-            return None
-        a0 = strip_refs(b.origin(node["args"][0]))
-        if a0 != V:
-            return None
-        if re.search(r"Vec::<T(, A)?>::truncate$", d):
-            k = b.origin(node["args"][1])
-            return ("truncate", k[1] if k[0] == "const" and k[1] is not None else (k[2] if k[0] == "const" else fmt_origin(k)))
-        if d.endswith("BufMut::put_bytes"):
-            z = b.origin(node["args"][1])
-            if not (z[0] == "const" and z[1] == 0):
-                return ("put", "nonzero")
-            return ("put_zeros",) + classify_amount(b.origin(node["args"][2]), V)
-        if re.search(r"Vec::<T(, A)?>::push$", d):
-            z = b.origin(node["args"][1])
-            return ("push", z[1] if z[0] == "const" else None)
-        if d.endswith("BinWrite::write_options"):
-            return ("write",)
-        if re.search(r"Vec::<T(, A)?>::resize$", d) and len(node["args"]) == 3:
-            z = b.origin(node["args"][2])
-            tgt = b.origin(node["args"][1])
-            if z[0] == "const" and z[1] == 0:
-                x = f0(tgt)
-                if x[0] == "const":
-                    return ("resize_zeros", "to", x[1] if x[1] is not None else x[2])
-                if x[0] == "call" and re.search(r"<impl usize>::next_multiple_of$", x[1] or "") and len(x[3]) == 2 and is_len_of(x[3][0], V) and x[3][1][0] == "const":
-                    return ("resize_zeros", "round_up", fmt_origin(x[3][1]))
-                if x[0] == "bin" and x[1] == "BitAnd":
-                    s_, m_ = f0(x[2]), x[3]
-                    if s_[0] == "bin" and s_[1] in ("AddWithOverflow", "Add") and is_len_of(s_[2], V) and m_[0] == "un" and m_[1] == "Not" and f0(s_[3]) == f0(m_[2]):
-                        return ("resize_zeros", "round_up", fmt_origin(f0(s_[3])))
-                return ("other", "resize to %s" % fmt_origin(tgt)[:60])
-            return ("other", "resize with a non-zero fill")
-        if re.search(r"Vec::<T(, A)?>::(resize|extend_from_slice|clear|pop|remove|insert|drain|retain|set_len|split_off|append|reserve)$", d):
-            return ("other", d.split("::")[-1])
-        return None
-
-    def edge(bb, s, t):
-        if t["k"] != "switch":
-            return None
-        o = b.origin(t["discr"])
-        if o[0] == "const" and o[1] is not None:
-            tg = [(int(v), tb) for v, tb in t["targets"]]
-            want = [tb for v, tb in tg if v == o[1]]
-            want = want[0] if want else t["otherwise"]
-            return None if s == want else "infeasible"
-        c = classify_cond(o, V)
-        if c is None:
-            return None
-        tg = {int(v): tb for v, tb in t["targets"]}
-        truth = not (0 in tg and tg[0] == s)
-        return ("cond",) + c + (truth,)
-
-    seqs = b.event_paths(classify, edge_classify=edge)
-    runs = set()
-    for s in seqs:
-        evs = tuple(e for e in s if e[0] not in ("return",))
-        if not any(e[0] == "write" for e in evs):
-            continue
-        if evs and evs[-1][0] in ("unreachable", "diverge"):
-            continue
-        cut = []
-        for e in evs:
-            cut.append(e)
-            if e[0] == "write":
-                break
-        runs.add(tuple(cut))
-    return sorted(runs)
-
-
-INF = float("inf")
-
-
-def interpret(run):
-    """abstract states at the write, one per semantic case: dict(lo, hi, aligned, zero_tail, notes, branch, pad) with K symbolic.
-    `pad` says whether the padding step appended at least one zero byte ('>0') or none ('=0'); it is decided by the source's
-    own guard (`remaining > 0`, `round_to != len`) when there is one, and by a case split on the amount when the padding call
-    is unguarded (`put_bytes(0, 0)` is a no-op) - so the cases, and the instance keys built from them, do not depend on how
-    the source spells the guard."""
-    import copy
-    states = [{"lo": 0, "hi": INF, "K": None, "aligned": None, "zero_tail": False, "notes": [], "feasible": True, "branch": "fixed", "pad": None, "pending": None}]
-    for e in run:
-        nxt = []
-        for st in states:
-            if e[0] == "cond":
-                c = e[1]
-                truth = e[-1]
-                if c == "align>1":
-                    st["branch"] = "aligned" if truth else "fixed"
-                elif c == "remaining>0":
-                    st["K"] = e[2]
-                    if truth:
-                        st["pending"] = e[2]          # len < K
-                    else:
-                        st["pad"] = "=0"
-                        if st["hi"] == "K":
-                            st["lo"] = "K"
-                            st["notes"].append("remaining == 0: the vector already fills the field")
-                        else:
-                            st["notes"].append("remaining == 0 without an upper bound on the length")
-                elif c == "needs_round":
-                    st["needs_round"] = truth
-                    if not truth:
-                        st["aligned"] = True
-                        st["pad"] = "=0"
-                elif c == "len>K":
-                    st["K"] = e[2]
-                    if truth:
-                        st["lo"] = "K+1"
-                    else:
-                        st["hi"] = "K"
-                nxt.append(st)
-            elif e[0] == "truncate":
-                st["K"] = e[1]
-                if st["hi"] != "K":
-                    st["hi"] = "K"
-                    if st["lo"] == "K+1":
-                        st["lo"] = "K"
-                        st["notes"].append("truncate cuts (len > K)")
-                        st["zero_tail"] = False
-                    else:
-                        if st["zero_tail"]:
-                            st["notes"].append("truncate(K) after the zero padding may cut the padding off")
-                        st["zero_tail"] = False
-                nxt.append(st)
-            elif e[0] == "put_zeros":
-                kind = e[1]
-                if kind == "pad_to":
-                    if st["pending"] is not None:
-                        st["lo"] = st["hi"] = "K"
-                        st["zero_tail"] = True
-                        st["pending"] = None
-                        st["pad"] = ">0"
-                        nxt.append(st)
-                    elif st["hi"] == "K":
-                        # unguarded K - len with len <= K: either nothing is appended (len == K) or at least one zero byte
-                        a = copy.deepcopy(st)
-                        a["lo"] = a["hi"] = "K"
-                        a["pad"] = "=0"
-                        a["notes"].append("padding amount K - len is 0: the vector already fills the field")
-                        b_ = copy.deepcopy(st)
-                        b_["lo"] = b_["hi"] = "K"
-                        b_["zero_tail"] = True
-                        b_["pad"] = ">0"
-                        nxt.extend([a, b_])
-                    else:
-                        st["lo"] = st["hi"] = "K"
-                        st["notes"].append("pad-to K - len without an upper bound on the length (the subtraction can overflow)")
-                        st["hi"] = INF
-                        nxt.append(st)
-                elif kind == "round_up":
-                    if "needs_round" in st:
-                        st["aligned"] = True
-                        if st["needs_round"]:
-                            st["zero_tail"] = True
-                            st["pad"] = ">0"
-                        if st["hi"] == "K":
-                            st["hi"] = "K+a"
-                        nxt.append(st)
-                    else:
-                        a = copy.deepcopy(st)
-                        a["aligned"] = True
-                        a["pad"] = "=0"
-                        a["notes"].append("round-up amount is 0: the length is already a multiple of the alignment")
-                        b_ = copy.deepcopy(st)
-                        b_["aligned"] = True
-                        b_["zero_tail"] = True
-                        b_["pad"] = ">0"
-                        if b_["hi"] == "K":
-                            b_["hi"] = "K+a"
-                        nxt.extend([a, b_])
-                else:
-                    st["notes"].append("unrecognised padding amount %s" % (e[2],))
-                    st["hi"] = INF
-                    nxt.append(st)
-            elif e[0] == "resize_zeros":
-                if e[1] == "round_up":
-                    # resize((len + m) & !m, 0): appends the bytes missing to the next multiple, nothing when already aligned
-                    a = copy.deepcopy(st)
-                    a["aligned"] = True
-                    a["pad"] = "=0"
-                    a["notes"].append("round-up amount is 0: the length is already a multiple of the alignment")
-                    b_ = copy.deepcopy(st)
-                    b_["aligned"] = True
-                    b_["zero_tail"] = True
-                    b_["pad"] = ">0"
-                    if b_["hi"] == "K":
-                        b_["hi"] = "K+a"
-                    nxt.extend([a, b_])
-                else:
-                    # resize(K, 0): cuts when longer, pads with zeros when shorter
-                    st["K"] = e[2]
-                    c_ = copy.deepcopy(st)
-                    c_["lo"] = c_["hi"] = "K"
-                    c_["zero_tail"] = False
-                    c_["pad"] = "=0"
-                    c_["notes"].append("resize(K, 0) on a vector of at least K bytes: nothing is appended")
-                    d_ = copy.deepcopy(st)
-                    d_["lo"] = d_["hi"] = "K"
-                    d_["zero_tail"] = True
-                    d_["pad"] = ">0"
-                    nxt.extend([c_, d_])
-            elif e[0] == "push":
-                st["zero_tail"] = e[1] == 0
-                if st["hi"] == "K":
-                    st["hi"] = "K+1"
-                nxt.append(st)
-            elif e[0] in ("put", "other"):
-                st["notes"].append("unmodelled operation %s" % (e,))
-                st["lo"], st["hi"], st["zero_tail"] = 0, INF, False
-                nxt.append(st)
-            else:
-                nxt.append(st)
-        states = nxt
-    return states
-
-
 WRITERS = [
-    # (body, tracked local finder, label, needs zero tail, exact?)
+    # (body, label, how the field's width / alignment are fixed)
     ("insim_core::string::binrw_write_codepage_string", "string-writer"),
     ("<insim::insim::mso::Mso as binrw::binwrite::BinWrite>::write_options", "mso-writer"),
     ("insim::insim::ver::write_game_version", "version-writer"),
 ]
+# widths the specification fixes for the two writers that are not parameterised (InSim.txt: IS_MSO Msg[128] in steps of 4, IS_VER Version[8])
+MSO_MAX, MSO_ALIGN = 128, 4
+VERSION_WIDTH = 8
 
 
-def tracked_local(b):
-    """the Vec<u8> local handed to write_options"""
-    for bb, t in b.calls_to(r"BinWrite::write_options$"):
-        ga = callee(t)[2]
-        if ga and ga[0] == "alloc::vec::Vec<u8>":
-            p = t["args"][0].get("copy") or t["args"][0].get("move")
-            d = b.single_def(p["l"])
-            if d and d[0] == "stmt" and d[3]["rv"]["k"] == "ref":
-                return d[3]["rv"]["place"]["l"]
-    return None
+def lengths(K):
+    return sorted(set(list(range(0, min(K + 10, 41))) + list(range(max(0, K - 9), K + 10))))
 
 
 def length_domain(ctx, rep):
+    """R11.3 / R11.4: the path table of each writer (private helpers inlined) replayed over an abstract byte vector for every
+    content length around the field width, every alignment class and both `raw` settings (lib/vecsim.py)."""
+    import vecsim
+    from mirq import inline_calls, expand_adaptors
     for name, label in WRITERS:
         b = ctx.mir.body(name)
         if b is None:
             rep.fail("R11.3", "%s:found" % label, "%s not found" % name)
             continue
         rep.fn(name)
-        from mirq import inline_calls
         mod = (name[1:].split(" as ")[0] if name.startswith("<") else name).rsplit("::", 1)[0] + "::"
-        ib = inline_calls(b, lambda d, mod=mod: d.startswith(mod) and "{closure" not in d and not d.startswith("<"), depth=2)
+        def local(d, mod=mod):
+            # free functions and inherent methods of the writer's own module (not of its submodules)
+            if not d.startswith(mod) or "{closure" in d:
+                return False
+            rest = d[len(mod):].split("::")
+            return len(rest) == 1 or (len(rest) == 2 and rest[0][:1].isupper())
+        ib = inline_calls(b, local, depth=3)
         if ib is not b:
             rep.notes.append("R11.3: private helper(s) of %s inlined into %s" % (mod, label))
             b = ib
-        loc_ = tracked_local(b)
-        if loc_ is None:
-            rep.fail("R11.3", "%s:vector" % label, "no Vec<u8> handed to write_options in %s" % name, b.loc())
+        try:
+            rows = b.decision_rows(events=True)
+        except Exception as ex:
+            rep.fail("R11.3", "%s:paths" % label, "path table of %s not extractable (%s)" % (label, ex), b.loc())
             continue
-        runs = vec_paths(b, loc_)
-        rep.check("R11.3", "%s:paths" % label, len(runs) >= 1, "expected at least one path that writes the vector in %s (found %d)" % (label, len(runs)), b.loc(), nontrivial=False)
-        seen = {}
-        for run in runs:
-          for st in interpret(run):
-            conds = tuple((e[1], e[-1]) for e in run if e[0] == "cond" and e[1] != "align>1")
-            ops = tuple(e[0] + (":" + str(e[1]) if len(e) > 1 and e[0] in ("put_zeros", "truncate") else "") for e in run if e[0] != "cond")
-            if label == "mso-writer":
-                st["branch"] = "aligned"
-            tag = "%s:%s:%s" % (label, st["branch"], ("pad" + st["pad"]) if st["pad"] else "-")
-            if tag in seen:
-                # several source paths fall into one semantic case: the case holds only if all of them do
-                prev = seen[tag]
-                prev["zero_tail"] = prev["zero_tail"] and st["zero_tail"]
+        writes = [r for r in rows if any(e[0] == "call" and (e[2] or "").endswith("BinWrite::write_options") and e[5] and vecsim.VEC_TY.match(str(e[5][0])) for e in r[2])]
+        rep.check("R11.3", "%s:paths" % label, len(writes) >= 1, "expected at least one path that writes a byte vector in %s (found %d)" % (label, len(writes)), b.loc(), nontrivial=False)
+        if not writes:
+            continue
+        argc = b.raw.get("argc") or 0
+        tuple_arg = [i for i in range(1, argc + 1) if re.sub(r"\s", "", b.raw["locals"][i]["ty"]) == "(bool,u8)"]
+        cur = {}
+
+        def leaf(o, m):
+            if o[0] == "const" and o[1] is None and o[2] == "SIZE":
+                return cur["K"]
+            if tuple_arg and o[0] == "field" and o[1] == ("arg", tuple_arg[0]) and o[2] in (0, 1):
+                return cur["raw"] if o[2] == 0 else cur["a"]
+            return None
+        sim = vecsim.VecSim(ctx, b, rows, mod, leaf)
+        if label == "string-writer":
+            if not tuple_arg:
+                rep.fail("R11.3", "%s:arguments" % label, "the (raw, align_to) argument of %s was not found" % name, b.loc())
                 continue
-            seen[tag] = st
-            st["_conds"], st["_ops"] = conds, ops
-        for tag, st in sorted(seen.items()):
-            conds, ops = st["_conds"], st["_ops"]
-            sample = {"writer": label, "branch": st["branch"], "case": st["pad"], "conditions": [list(c) for c in conds], "operations": list(ops),
-                      "len": [str(st["lo"]), str(st["hi"])], "zero_tail": st["zero_tail"], "notes": st["notes"]}
-            if st["branch"] == "fixed":
-                ok = st["lo"] == "K" and st["hi"] == "K"
-                rep.check("R11.3", tag + ":exact-width", ok, "%s fixed branch: the written vector has length in [%s, %s], not exactly SIZE (%s)" % (label, st["lo"], st["hi"], st["notes"]), b.loc(), sample=sample)
+            grid = [(K, a, raw) for K in (4, 8, 16, 24, 64, 128) for a in (0, 1, 2, 4, 8) for raw in (0, 1) if a <= 1 or K % a == 0]
+        elif label == "mso-writer":
+            grid = [(MSO_MAX, MSO_ALIGN, 0)]
+        else:
+            grid = [(VERSION_WIDTH, 0, 0)]
+        cases = {}
+        broken = None
+        evaluated = 0
+        for (K, a, raw) in grid:
+            cur["K"], cur["a"], cur["raw"] = K, a, raw
+            branch = "aligned" if a > 1 else "fixed"
+            for L in lengths(K):
+                outs = sim.run(L)
+                evaluated += 1
+                outs = [o for o in outs if o.trap or o.written is not None or o.result not in ("Err",)]
+                wr = [o for o in outs if o.written is not None]
+                traps = [o for o in outs if o.trap]
+                if traps or not wr:
+                    broken = broken or "SIZE=%d align=%d raw=%d, %d content bytes: %s" % (K, a, raw, L, traps[0].trap if traps else "no feasible path writes the vector")
+                    continue
+                for o in wr:
+                    w = o.written
+                    case = "pad>0" if w["appended"] > 0 else "pad=0"          # were padding bytes appended on this path (even if cut off again)
+                    c = cases.setdefault((branch, case), {"n": 0, "width": None, "content": None, "term": None, "ops": set()})
+                    c["n"] += 1
+                    c["ops"].add(" ".join(re.sub(r"\d+", "n", x) for x in o.ops))
+                    where = "SIZE=%d align=%d, %d content bytes (%s)" % (K, a, L, ", ".join(o.ops) or "no operation")
+                    if branch == "fixed" and w["len"] != K:
+                        c["width"] = c["width"] or "%s: %d bytes are written, not %d" % (where, w["len"], K)
+                    if branch == "aligned" and (w["len"] > K or w["len"] % a):
+                        c["width"] = c["width"] or "%s: %d bytes are written (maximum %d, multiple of %d required)" % (where, w["len"], K, a)
+                    if w["kept"] != min(L, K) or w["zt"] < w["app"]:
+                        c["content"] = c["content"] or "%s: %d of the %d content bytes survive (the field holds %d) and %d of the %d appended bytes are zero" \
+                            % (where, w["kept"], L, K, min(w["zt"], w["app"]), w["app"])
+                    if w["zt"] < 1:
+                        c["term"] = c["term"] or "%s: the last byte written is a content byte" % where
+        rep.check("R11.3", "%s:evaluated" % label, broken is None, "the writer's path table could not be replayed for %s" % broken, b.loc(),
+                  sample={"writer": label, "inputs_evaluated": evaluated, "paths": len(rows)})
+        for (branch, case), c in sorted(cases.items()):
+            tag = "%s:%s:%s" % (label, branch, case)
+            sample = {"writer": label, "branch": branch, "case": case, "inputs": c["n"], "operations": sorted(c["ops"])[:6]}
+            if branch == "fixed":
+                rep.check("R11.3", tag + ":exact-width", c["width"] is None, "%s fixed branch: %s" % (label, c["width"]), b.loc(), sample=sample)
             else:
-                ok = st["hi"] == "K" and st["aligned"] is True
-                rep.check("R11.3", tag + ":bounded-aligned", ok, "%s aligned branch: length bound %s, multiple of the alignment: %s (%s)" % (label, st["hi"], st["aligned"], st["notes"]), b.loc(), sample=sample)
+                rep.check("R11.3", tag + ":bounded-aligned", c["width"] is None, "%s aligned branch: %s" % (label, c["width"]), b.loc(), sample=sample)
+            rep.check("R11.3", tag + ":content", c["content"] is None, "%s %s branch: the field must hold the encoded text cut to the width, followed by zero bytes only: %s" % (label, branch, c["content"]),
+                      b.loc(), sample=sample)
             if label in ("string-writer",):
-                rep.check("R11.4", tag + ":terminated", st["zero_tail"],
-                          "%s, %s branch, case pad%s: no zero byte is guaranteed after the last operation that can shorten the text (%s): MST/MSX/MSL/MTC text that fills the field is sent without its NUL terminator"
-                          % (label, st["branch"], st["pad"], "; ".join(st["notes"]) or "no padding on this path"), b.loc(), sample=sample)
+                rep.check("R11.4", tag + ":terminated", c["term"] is None,
+                          "%s, %s branch, case %s: no zero byte ends the field (%s): MST/MSX/MSL/MTC text that fills the field is sent without its NUL terminator"
+                          % (label, branch, case, c["term"]), b.loc(), sample=sample)
     # the four packets that LFS requires to end in NUL use the analysed writer
     ent, variants = packet_variants(ctx)
     for v in variants:
